@@ -388,7 +388,6 @@ func main() {
 	if f.Tier != "quick" {
 		nMut, nRand = 10, 4
 	}
-	tagsBombs := 1 // thorough: one TagsUpdate registration gets the full 2^31-1 counts (each costs a killed child)
 	var jobs []job
 	add := func(r pktgen.Reg, kind string, body []byte) {
 		jobs = append(jobs, job{State: r.StateName, Dir: int(r.Dir), Proto: int(r.Proto), ID: int(r.ID), Body: hex.EncodeToString(body), Kind: kind, Type: r.Type.String()})
@@ -399,15 +398,7 @@ func main() {
 			continue
 		}
 		cr := rng.Fork()
-		// recorded finding C05-1: a TagsUpdate count of 2^31-1 makes the process allocate until it is killed (each such
-		// payload costs one watchdog period); the quick tier shows the same defect with 2^20 (56 MB for 3 bytes)
 		huge := 1<<31 - 1
-		if tn == "config.TagsUpdate" {
-			if f.Tier == "quick" || tagsBombs <= 0 {
-				huge = 1 << 20
-			}
-			tagsBombs--
-		}
 		for i := 0; i < nRand; i++ {
 			add(r, "random", cr.Bytes(cr.Pick(0, 1, 2, 5, 17, 40, 300)))
 		}
@@ -497,11 +488,8 @@ func main() {
 			"kind="+j.Kind, "outcome="+r.Outcome, "state="+j.State, "dir="+proto.Direction(j.Dir).String(), fmt.Sprintf("protocol=%d", j.Proto))
 	}
 	for _, gv := range goViol {
-		// the recorded finding: TagsUpdate pre-sizes maps by the untrusted count (the process dies of memory exhaustion)
 		known := any(nil)
-		if j, ok := gv["job"].(job); ok && j.Type == "config.TagsUpdate" {
-			known = 1
-		} else if ok && j.Type == "packet.AvailableCommands" && strings.HasPrefix(j.Kind, "brigadier-redirect-random-chain") && len(j.Body) > 1000000 {
+		if j, ok := gv["job"].(job); ok && j.Type == "packet.AvailableCommands" && strings.HasPrefix(j.Kind, "brigadier-redirect-random-chain") && len(j.Body) > 1000000 {
 			known = 2 // quadratic graph resolution: the watchdog fired on a > 500 kB redirect chain
 		}
 		gv["known"] = known
